@@ -14,7 +14,7 @@ type c04Case struct {
 	Type       string `json:"type"`
 	C, P, S, L int    // root of P frames; buffer under test = root.Slice(S, S+L); Direct: Alloc(C,L,P) itself (S=0)
 	Direct     bool
-	N          int // number of AppendSample calls
+	N          int  // number of AppendSample calls
 	Sparse     bool // long buffers: full comparison every 97 calls (and at the end), cheap comparison otherwise
 }
 
